@@ -54,6 +54,8 @@ func c15Hooks() {
 	phase2.VerifPivotsHook = nil
 }
 
+const c15MaxSchedules = 400000
+
 var c15Solo []string
 
 func c15SoloResults() {
@@ -81,8 +83,17 @@ func evalC15(x *Ctx, in Input) {
 	states := map[string]bool{}
 	execs := 0
 	maxPre := 0
+	viol0 := x.st.Violations + sumMap(x.st.Known)
+	capped := false
 	var explore func(prefix []int)
 	explore = func(prefix []int) {
+		if x.st.Violations+sumMap(x.st.Known) > viol0 || len(x.replayed) > 0 {
+			return // a counterexample for this scenario has been recorded: no need to enumerate the rest
+		}
+		if execs >= c15MaxSchedules {
+			capped = true
+			return
+		}
 		atomic.AddUint64(&wdBeat, 1)
 		s := verifrt.RunSched(bodies, prefix, globalSnapshot)
 		execs++
@@ -136,6 +147,10 @@ func evalC15(x *Ctx, in Input) {
 		}
 	}
 	explore(nil)
+	if capped {
+		x.st.DeadlineHit = true
+		x.st.Notes = appendOnce(x.st.Notes, fmt.Sprintf("C15: scenario %v stopped at the cap of %d schedules (not exhaustive)", in.E, c15MaxSchedules))
+	}
 	x.st.Transitions += int64(len(visited))
 	x.Hist("threads", len(in.E))
 	x.Hist("schedules-per-scenario", execs)
@@ -222,14 +237,14 @@ func racePass() int {
 func init() {
 	checks["C15"] = func(tier string) []*Pass {
 		ps := []*Pass{
-			{Name: "pairs", Space: c15Tuples(2), Eval: evalC15, BudgetS: 60,
+			{Name: "pairs", Space: c15Tuples(2), Eval: evalC15, BudgetS: 15,
 				Bound: fmt.Sprintf("2 threads: every ordered pair from a pool of %d (graph, options) items; EVERY interleaving of the accesses to package-level variables (unbounded preemptions, pruned by state key)", len(c15Pool))},
 		}
 		if tier == "thorough" {
-			ps = append(ps, &Pass{Name: "triples", Space: c15Tuples(3), Eval: evalC15, BudgetS: 120,
+			ps = append(ps, &Pass{Name: "triples", Space: c15Tuples(3), Eval: evalC15, BudgetS: 20,
 				Bound: "3 threads: every ordered triple from the pool; every interleaving (unbounded preemptions, pruned by state key)"})
 		} else {
-			ps = append(ps, &Pass{Name: "triples-sample", Space: spaceList([]Input{{E: []int{0, 1, 2}}, {E: []int{3, 4, 5}}, {E: []int{1, 1, 1}}, {E: []int{5, 0, 3}}}), Eval: evalC15, BudgetS: 120,
+			ps = append(ps, &Pass{Name: "triples-sample", Space: spaceList([]Input{{E: []int{0, 1, 2}}, {E: []int{3, 4, 5}}, {E: []int{1, 1, 1}}, {E: []int{5, 0, 3}}}), Eval: evalC15, BudgetS: 20,
 				Bound: "3 threads: 4 triples from the pool; every interleaving"})
 		}
 		return ps
